@@ -193,7 +193,7 @@ def _gen_edit(rng, tree, fidn, allow_dotgit, force=None):
     """one random edit of a flat native tree (list of [path, fid, kind, data, exec])"""
     tree = [list(e) for e in tree]
     op = rng.choice(["add", "add", "modify", "modify", "chmod", "delete", "rename", "rename", "kind", "adddir",
-                     "retarget", "addlink", "moveout", "moveout", "addsub"])
+                     "retarget", "addlink", "moveout", "moveout", "addsub", "replace", "replace"])
     if force:
         op = force
     files = [e for e in tree if e[2] == "file"]
@@ -205,6 +205,26 @@ def _gen_edit(rng, tree, fidn, allow_dotgit, force=None):
             return ".git"
         return rng.choice(cands) if cands else None
 
+    if op == "replace":
+        # an entry is removed and ANOTHER entry (directory with untouched contents, symlink, file) takes over its path
+        movers = [e for e in tree]
+        rng.shuffle(movers)
+        for m in movers:
+            victims = [v for v in tree if v[0] != m[0] and not v[0].startswith(m[0] + "/") and not m[0].startswith(v[0] + "/")
+                       and v[0].split("/")[-1] != ".git"]
+            if not victims:
+                continue
+            v = rng.choice(victims)
+            x = v[0]
+            tree = [e for e in tree if e[0] != x and not e[0].startswith(x + "/")]
+            old = m[0]
+            for e in tree:
+                if e[0] == old:
+                    e[0] = x
+                elif e[0].startswith(old + "/"):
+                    e[0] = x + e[0][len(old):]
+            return tree
+        return tree
     if op == "moveout":
         # a file/symlink leaves a directory that keeps at least one other child; nothing else in it changes
         cands = [e for e in tree if e[2] != "directory" and "/" in e[0]
@@ -328,7 +348,10 @@ def gen_native(rng, nrev, allow_dotgit=True):
             else:
                 for p in parents[1:]:
                     tree = _take_other(rng, tree, revs[p]["tree"])
-                if rng.random() < 0.25:
+                x = rng.random()
+                if x < 0.15:
+                    tree = _gen_edit(rng, tree, fidn, allow_dotgit, force="replace")    # the only change of the revision
+                elif x < 0.35:
                     tree = _gen_edit(rng, tree, fidn, allow_dotgit, force="moveout")    # the only change of the revision
                 else:
                     for _ in range(rng.choice([0, 1, 1, 2, 3])):
@@ -497,6 +520,20 @@ def corpus():
     out.append({"kind": "native", "revs": [
         {"parents": [], "tree": [d("dd", b"d"), f("dd/aa", b"a"), f("dd/bb", b"b", b"B\n")]},
         {"parents": [0], "tree": [f("bb", b"b", b"B\n"), d("ee", b"d"), f("ee/aa", b"a")]}]})
+    # an entry is removed and another one takes its path in the same revision: a directory with untouched contents,
+    # a symlink, a file; at the top level and inside a directory
+    c0 = [f("src", b"s", b"S\n"), d("lib", b"L"), f("lib/aa", b"a"), f("lib/bb", b"b", b"B\n"), l("ln", b"n", b"lib"),
+          d("top", b"T"), f("top/xx", b"x", b"x \n"), d("top/sub", b"U"), f("top/sub/yy", b"y", b""), f("zz", b"z", b"Z\n")]
+    c1 = [d("src", b"L"), f("src/aa", b"a"), f("src/bb", b"b", b"B\n"), l("ln", b"n", b"lib"),
+          d("top", b"T"), f("top/xx", b"x", b"x \n"), d("top/sub", b"U"), f("top/sub/yy", b"y", b""), f("zz", b"z", b"Z\n")]
+    c2 = [d("src", b"L"), f("src/aa", b"a"), f("src/bb", b"b", b"B\n"),
+          d("top", b"T"), f("top/xx", b"x", b"x \n"), d("top/sub", b"U"), f("top/sub/yy", b"y", b""), l("zz", b"n", b"lib")]
+    c3 = [d("src", b"L"), f("src/aa", b"a"), f("src/bb", b"b", b"B\n"),
+          d("top", b"T"), d("top/xx", b"U"), f("top/xx/yy", b"y", b""), l("zz", b"n", b"lib")]
+    c4 = [d("src", b"L"), f("src/bb", b"b", b"B\n"),
+          d("top", b"T"), d("top/xx", b"U"), f("top/xx/yy", b"y", b""), f("zz", b"a")]
+    out.append({"kind": "native", "revs": [{"parents": [], "tree": c0}, {"parents": [0], "tree": c1}, {"parents": [1], "tree": c2},
+                                           {"parents": [2], "tree": c3}, {"parents": [3], "tree": c4}]})
     # a merge that changes nothing relative to its left parent (root tree must come from parent 0, not parent 1)
     out.append({"kind": "native", "revs": [
         {"parents": [], "tree": [f("aa", b"a"), f("bb", b"b", b"B\n")]},
